@@ -500,9 +500,6 @@ class RESI(Command):
         self.alias: Optional[int] = None
         self.chain_id: Optional[int] = None
         self._textline: str = ' '.join(spline)
-        if len(spline) < 2 and (self.shx.debug or self.shx.verbose):
-            print('*** Wrong RESI definition found! Check your RESI instructions ***')
-            raise ParseParamError(debug=self.shx.debug, verbose=self.shx.verbose)
         self._get_resi_definition(spline)
         if self.residue_number < -999 or self.residue_number > 9999:
             if self.shx.debug or self.shx.verbose:
